@@ -139,6 +139,8 @@ inductive Op
   | size (d : String)                                                           -- #d
   | each (d : String)                                                           -- {x}'d
   | alias (x d : String)                                                        -- x::d
+  | joinBad (d : String) (k : Key)      -- d,[k]  (malformed one-element tuple: `b[1]` raises IndexError
+                                        --          before anything is assigned)
 deriving Repr
 
 inductive Out
@@ -148,6 +150,7 @@ inductive Out
   | pairs (ps : List (Key × Val))     -- one entry per application of the function, in order
   | vals (vs : List Val)
   | keyError
+  | indexError
   | fn
   | bad                               -- the request is outside the modelled programs
 deriving Repr, DecidableEq
@@ -230,6 +233,10 @@ def step (s : State) : Op → State × Out
     match s.vars.lookup d with
     | some v => ({ s with vars := (x, v) :: s.vars }, .val v)
     | none => (s, .bad)
+  | .joinBad d _ =>
+    match s.deref d with
+    | none => (s, .bad)
+    | some _ => (s, .indexError)
 
 def run (s : State) : List Op → State × List Out
   | [] => (s, [])
@@ -305,6 +312,7 @@ def specStep (a : AState) : Op → AState
     match a.vars.lookup d with
     | some v => { a with vars := (x, v) :: a.vars }
     | none => a
+  | .joinBad _ _ => a          -- an operation that raises leaves every map as it was
 
 /-- the results the property allows for an operation in abstract state `a` -/
 def specOut (a : AState) : Op → Out → Prop
@@ -365,6 +373,10 @@ def specOut (a : AState) : Op → Out → Prop
     match a.vars.lookup d with
     | some v => o = .val v
     | none => o = .bad
+  | .joinBad d _, o =>
+    match a.deref d with
+    | none => o = .bad
+    | some _ => o = .indexError
 
 def specRun (a : AState) : List Op → AState
   | [] => a
@@ -425,6 +437,7 @@ def showOut : Out → String
   | .pairs ps => s!"P{ps.length}:" ++ showPairs ps
   | .vals vs => "L(" ++ ";".intercalate (vs.map showVal) ++ ")"
   | .keyError => "KeyError"
+  | .indexError => "IndexError"
   | .fn => "fn"
   | .bad => "bad-op"
 
@@ -521,6 +534,10 @@ def parseOp (ws : List String) : Option Op :=
       let x ← name "x"
       let d ← name "d"
       pure (.alias x d)
+    | "joinbad" => do
+      let d ← name "d"
+      let k ← parseKey (fieldD fs "k")
+      pure (.joinBad d k)
     | _ => none
 
 def handle (s : State) (ws : List String) : State × String :=
